@@ -379,6 +379,7 @@ func (cluster *Cluster) chooseNodeWithCmdAndKeys(cmd string, strict bool, args .
 			}
 			keyStr, _ := key(args[0])
 			resolvedKey = keyStr
+			keys = []string{keyStr}
 		}
 
 		if cluster.transactionEnable {
@@ -392,6 +393,23 @@ func (cluster *Cluster) chooseNodeWithCmdAndKeys(cmd string, strict bool, args .
 	}
 
 	return node, keys, err
+}
+
+// pinBatchRoute keeps all commands of one slot inside one batch on the node that
+// was chosen for the first of them. The slot map can be refreshed between two
+// Puts of the same batch (handleUpdate runs asynchronously); without pinning,
+// two commands on the same key would land in two node queues that execute
+// concurrently, and the redirected older one could take effect after the newer.
+func pinBatchRoute(routes map[uint16]*redisNode, node *redisNode, keys []string) *redisNode {
+	if node == nil || len(keys) == 0 {
+		return node
+	}
+	slot := hash(keys[0])
+	if pinned, ok := routes[slot]; ok {
+		return pinned
+	}
+	routes[slot] = node
+	return node
 }
 
 func (cluster *Cluster) chooseNodeByCommandSpec(cmd string, args ...interface{}) (*redisNode, string, []string, bool, error) {
